@@ -26,7 +26,7 @@ def gen_case(seed, i):
     rng = random.Random(stable_hash(seed, ID, i))
     nroots = rng.randint(1, 4)
     w = World()
-    roots = ["r%d" % (k + 1) for k in range(nroots)]
+    roots = gen.root_names(rng, nroots)
     for r in roots:
         w.add_dir(r)
         w.add_dir(r + "/sub")
